@@ -201,11 +201,10 @@ pub fn check(tape: &[u32], thorough: bool) -> CheckResult {
                                 return Err(Failure::new("fault-after-end-changes-result", "error after the last frame changed the result").with(detail(json!({"offset": k}))));
                             }
                         }
-                        // a reader that fails after all needed bytes were delivered: loading normally succeeds;
-                        // an implementation that reads ahead may legitimately surface the injected error, but
-                        // nothing else (and never a different sprite)
-                        Err(AsepriteParseError::IoError(e)) if e.kind() == *kind && e.get_ref().and_then(|r| r.downcast_ref::<Marker>()).is_some() => {}
-                        Err(e) => return Err(Failure::new("fault-after-end-fails", format!("I/O error injected at byte {} >= end of last frame {} made loading fail with an unrelated error: {}", k, l, e)).with(detail(json!({"offset": k})))),
+                        // every byte of the sprite has been delivered before the reader starts failing (a reset
+                        // connection after the payload, the next member of a stream being unreadable): the result
+                        // depends only on the byte sequence, so the sprite must be returned
+                        Err(e) => return Err(Failure::new("fault-after-end-fails", format!("all {} bytes of the sprite were delivered, then the reader reported an I/O error (at byte {}): loading failed with {}", l, k, e)).with(detail(json!({"offset": k})))),
                     }
                 }
             }
